@@ -436,7 +436,7 @@ def run_shard(spec, emit):
     doc = observer.doc
     sets = gen_filter_sets(tier, seed)
     mine = [s for i, s in enumerate(sets) if i % nshards == shard]
-    deadline = time.monotonic() + (90 if tier == "quick" else 2400)
+    deadline = time.monotonic() + (90 if tier == "quick" else 300)
     rng = random.Random(f"{seed}:C07:{shard}")
     samples = 0
     engine_budget = 4 if tier == "quick" else 40
